@@ -228,6 +228,17 @@ def numIsInf : Num → Bool
 def numIsNan : Num → Bool
   | .dbl d => Dbl.isNan d | .flt d => Dbl.isNan d | _ => false
 
+/-- `float(int)` raises OverflowError ("int too large to convert to float") exactly when the rounded value
+is infinite -/
+def intOvf (R : Rounding) : Num → Bool
+  | .int n => Dbl.isInf (ofInt R n)
+  | _ => false
+
+/-- an operator that mixes a float with an integer beyond the xs:double range: every operator maps the
+OverflowError to FOAR0002 (F&O 4.2: overflow "may raise FOAR0002") -/
+def mixedOverflow (R : Rounding) (a b : Num) : Bool :=
+  (isFloat a || isFloat b) && (intOvf R a || intOvf R b)
+
 /-! ### the operators -/
 
 def opAdd (R : Rounding) (a b : Num) : Except Err Num :=
@@ -236,7 +247,7 @@ def opAdd (R : Rounding) (a b : Num) : Except Err Num :=
   | (a, b) =>
     match asDec a, asDec b with
     | some (x, sx), some (y, sy) => pure (mkDec (decAdd x sx y sy))
-    | _, _ => pure (liftF R (fadd R) a b)
+    | _, _ => if mixedOverflow R a b then throw .FOAR0002 else pure (liftF R (fadd R) a b)
 
 def opSub (R : Rounding) (a b : Num) : Except Err Num :=
   match coerce R a b with
@@ -244,7 +255,7 @@ def opSub (R : Rounding) (a b : Num) : Except Err Num :=
   | (a, b) =>
     match asDec a, asDec b with
     | some (x, sx), some (y, sy) => pure (mkDec (decAdd x sx (-y) sy))
-    | _, _ => pure (liftF R (fsub R) a b)
+    | _, _ => if mixedOverflow R a b then throw .FOAR0002 else pure (liftF R (fsub R) a b)
 
 def opMul (R : Rounding) (a b : Num) : Except Err Num :=
   match coerce R a b with
@@ -252,7 +263,7 @@ def opMul (R : Rounding) (a b : Num) : Except Err Num :=
   | (a, b) =>
     match asDec a, asDec b with
     | some (x, sx), some (y, sy) => pure (mkDec (decMul x sx y sy))
-    | _, _ => pure (liftF R (fmul R) a b)
+    | _, _ => if mixedOverflow R a b then throw .FOAR0002 else pure (liftF R (fmul R) a b)
 
 /-- does `str(divisor)` start with '-' for a zero divisor? (only -0.0) -/
 def zeroIsNeg : Num → Bool
@@ -276,7 +287,7 @@ def opDiv (R : Rounding) (v : Ver) (a b : Num) : Except Err Num :=
   if !isZero b then
     match asDec a, asDec b with
     | some (x, sx), some (y, sy) => pure (mkDec (decDiv x sx y sy))
-    | _, _ => pure (liftF R (ftruediv R) a b)
+    | _, _ => if mixedOverflow R a b then throw .FOAR0002 else pure (liftF R (ftruediv R) a b)
   else if v != .v10 && !isFloat a && !isFloat b then throw .FOAR0001
   else match signOf a with
     | none => pure (.dbl .nan)
@@ -287,19 +298,23 @@ def opDiv (R : Rounding) (v : Ver) (a b : Num) : Except Err Num :=
 def opMod (R : Rounding) (v : Ver) (a b : Num) : Except Err Num :=
   let (a, b) := coerce R a b
   if isZero b && (isFloat a || isFloat b) then pure (.dbl .nan)
-  else if numIsInf b && !numIsInf a && !isZero a then
-    (if v ≠ .v10 then pure a else pure (.dbl .nan))
   else
     match a, b with
     | .int x, .int y => if y = 0 then throw .FOAR0001 else pure (.int (modInt x y))
     | a, b =>
+      -- `isinstance(op2, float) and math.isinf(op2) and not math.isinf(op1) and op1 != 0`
+      if numIsInf b && intOvf R a then throw .FOAR0002
+      else if numIsInf b && !numIsInf a && !isZero a then
+        (if v ≠ .v10 then pure a else pure (.dbl .nan))
+      else
       match asDec a, asDec b with
       | some (x, sx), some (y, sy) =>
         if y = 0 then throw .FOAR0001 else
         match decMod x sx y sy with
         | some r => pure (mkDec r)
-        | none => throw .FOAR0001         -- InvalidOperation is mapped to FOAR0001 by the code
+        | none => throw .FOAR0002         -- InvalidOperation with a non-zero divisor
       | _, _ =>
+        if mixedOverflow R a b then throw .FOAR0002 else
         -- result = op1 % op2;  NaN is returned as is, otherwise type(result)(math.fmod(op1, op2))
         pure (liftF R (fun x y => if pyFloatModIsNan x y then .nan else fmod x y) a b)
 
@@ -317,7 +332,8 @@ def idivFloat : Dbl → Dbl → Int
 /-- `idiv` (`_xpath2_operators.py`, after the fixes) -/
 def opIdiv (R : Rounding) (a b : Num) : Except Err Num :=
   let (a, b) := coerce R a b
-  if numIsInf a then throw (if isZero b then .FOAR0001 else .FOAR0002)
+  if mixedOverflow R a b then throw .FOAR0002     -- math.isinf / math.isnan overflow on the integer
+  else if numIsInf a then throw (if isZero b then .FOAR0001 else .FOAR0002)
   else if numIsNan a || numIsNan b then throw .FOAR0002
   else if isZero b then throw .FOAR0001
   else
@@ -612,6 +628,21 @@ def exactBinResult (op : BinOp) (x y : Rat) : Rat :=
   | .mod => if y = 0 then 0 else x - y * (FOArith.trunc (x / y) : Int)
   | .idiv => 0
 
+/-- the operand as the xs:float payload it is promoted to (by the implementation) -/
+def asF (R : Rounding) : Num → Dbl
+  | .int n => ofInt R n
+  | .dec n s => mkFloat (ofDec R n s)
+  | .dbl d => d
+  | .flt d => d
+
+/-- Bool form of the side conditions of `float_ops_eq_spec_up_to_rounding` (integer operands inside the
+`Float` range, remainder not flushed): where they hold, an xs:float result must be exactly the F&O result
+computed with `implR` -/
+def floatHyp (R : Rounding) (op : BinOp) (a b : Num) : Bool :=
+  (match a with | .int n => mkFloat (ofInt R n) == ofInt R n | _ => true) &&
+  (match b with | .int n => mkFloat (ofInt R n) == ofInt R n | _ => true) &&
+  (op != .mod || mkFloat (fmod (asF R a) (asF R b)) == fmod (asF R a) (asF R b))
+
 /-- F06c: xs:float is stored and computed in binary64 and flushed to zero below 1e-37 -/
 def trigF06c_bin (op : BinOp) (a b : Num) : Bool :=
   floatTyped a b &&
@@ -687,6 +718,12 @@ def trigF06p (op : UnOp) (a : Num) : Bool :=
   | .round p, some x => numDigits (quantMag (if x > 0 then .halfUp else .halfDown) x p) > 28
   | .rhe p, some _ => rheDecOverflow a p
   | _, _ => false
+
+/-- an integer operand beyond the xs:double range is promoted to a float: the code raises FOAR0002 where a
+cast would give ±INF (F&O 4.2 allows either on overflow) -/
+def trigOvf (R : Rounding) (a b : Num) : Bool :=
+  let (a, b) := coerce R a b
+  mixedOverflow R a b
 
 /-- Python's float floor division is exact only for quotients below 2^51 -/
 def trigBig (R : Rounding) (op : BinOp) (a b : Num) : Bool :=
